@@ -59,6 +59,7 @@ Valid(e) ==
    ELSE IF e.op = "herald" THEN HeraldValid(c, a[1], a[2], a[3])
    ELSE IF e.op = "add" THEN circ[a[1]].nu >= 0 /\ AddValid(c, circ[a[1]], a[2])
    ELSE IF e.op = "plus" THEN PlusValid(circ[a[1]], circ[a[2]])
+   ELSE IF e.op \in {"new", "newu"} THEN a[1] >= 1
    ELSE TRUE
 After(e, perm) ==          \* the abstract circuit of the target after the call
    LET c == circ[e.t]  a == e.a IN
@@ -72,6 +73,8 @@ After(e, perm) ==          \* the abstract circuit of the target after the call
    ELSE IF e.op = "add" THEN AddApply(c, circ[a[1]], a[2], a[3])
    ELSE IF e.op = "plus" THEN PlusApply(circ[a[1]], circ[a[2]])
    ELSE IF e.op = "copy" THEN circ[a[1]]
+   ELSE IF e.op = "new" THEN New(a[1])                                   \* Circuit(n)
+   ELSE IF e.op = "newu" THEN [New(a[1]) EXCEPT !.ops = <<OpU([k \in 1..a[1] |-> k], a[2])>>]      \* Unitary(matrix): one block over all modes
    ELSE IF e.op = "unpack" THEN UnpackApply(c, [j \in 1..Len(c.anc) |-> e.pre.apos[perm[j]] + 1])
    ELSE c
 NewOps(e, c2) ==
@@ -85,7 +88,7 @@ SemAfter(e, c2, perm) ==
    IF ~Num THEN <<>>
    ELSE IF e.op \in {"bs", "ps", "loss", "swap", "u"} THEN AppendAllSem(c, NewOps(e, c2), sem[e.t], <<>>)
    ELSE IF e.op = "add" THEN AddSem(c, circ[a[1]], a[2], sem[e.t], sem[a[1]])
-   ELSE IF e.op = "plus" THEN Sem(c2)
+   ELSE IF e.op \in {"plus", "new", "newu"} THEN Sem(c2)
    ELSE IF e.op = "copy" THEN sem[a[1]]
    ELSE IF e.op = "unpack" THEN UnpackSem(c, [j \in 1..Len(c.anc) |-> e.pre.apos[perm[j]] + 1], sem[e.t])
    ELSE sem[e.t]
@@ -130,7 +133,8 @@ RewriteBad(e) ==
      (IF e.op = "unpack" /\ ob.grp THEN {"group_remains"} ELSE {})
 \cup (IF e.op = "nonadj" /\ ob.nadj THEN {"nonadjacent_remains"} ELSE {})
 \cup (IF e.op = "compress" /\ ob.nspec > pv.nspec THEN {"components_grew"} ELSE {})
-\cup (IF e.op \in {"unpack", "compress", "nonadj"} /\ PrevToks[e.t] # e.toks[e.t] THEN {"rewrite_changed"} ELSE {})
+\* ctok: token of (mode count, input size, heralds, unitary) - unpack_groups may legitimately un-hide herald modes
+\cup (IF e.op \in {"unpack", "compress", "nonadj"} /\ pv.ctok # ob.ctok THEN {"rewrite_changed"} ELSE {})
 \* choose the ancilla bijection the observation supports (needed only by unpack)
 GoodPerm(e) ==
    LET c == circ[e.t]  P == {p \in Perms(c) : PermOk(e.pre, c, p) /\ (~Num \/ e.pre.U = <<>> \/ BlockMatches(e.pre, c, sem[e.t], p))}
